@@ -457,8 +457,14 @@ def r_split_arm(ctx, tv, rule='S2-NO-PRUNING'):
 def _margin_args_ok(m):
     """margin_no_header(stored normal, query vector) in either order"""
     a, b = m[2][0], m[2][1]
-    sa, sb = show(a), show(b)
-    return ('normal' in sa and 'query' in sb) or ('normal' in sb and 'query' in sa)
+
+    def is_normal(t):
+        return any(x[0] == 'field' and x[2] == 'normal' for x in walk(t))
+
+    def is_query(t):
+        # the vector of a leaf handed in by the caller (a parameter), not of a node fetched from the database
+        return any(x[0] == 'field' and x[2] == 'vector' and root(x[1])[0] == 'arg' for x in walk(t)) and not any(x[0] == 'call' and x[1].endswith('::get') for x in walk(t))
+    return (is_normal(a) and is_query(b)) or (is_normal(b) and is_query(a))
 
 
 def r_seed_roots(ctx, tv, rule='S6-ROOTS'):
@@ -601,7 +607,7 @@ def r_entry_points(ctx, rule='S11-ENTRY'):
         good = bool(il)
         if il:
             a = il[0][2]
-            good = strip(a[1])[0] == 'field' and strip(a[1])[2] == 'index' and strip(a[3])[0] == 'arg' and bi.local_name(strip(a[3])[1]) == 'item' and (via_map or c.fn is bi)
+            good = strip(a[1])[0] == 'field' and strip(a[1])[2] == 'index' and strip(a[3])[0] == 'arg' and bi.local_ty(strip(a[3])[1]) == 'u32' and (via_map or c.fn is bi)
         ctx.check(good, rule, 'by_item/leaf', c.loc(), 'queries with the stored leaf of (reader.index, item)', 'by_item does not query with the stored leaf of the requested item')
         # None => Ok(None) without error; Some => map(Some)
         rets = paths.ret_assigns(bi)
